@@ -79,6 +79,7 @@ func GenParams(t *rapid.T, seedTag string) sim.Params {
 	p.Evidence.ValidatorReleaseTime = int64(rapid.SampledFrom([]int{0, 0, 1}).Draw(t, "reltime"))
 	p.Evidence.PenaltyBasePercentage = int64(rapid.SampledFrom([]int{30, 10, 33}).Draw(t, "penpct"))
 	p.NoDelegOptions = u.N(5, "nodelegopt") == 0
+	p.CarryStakeSnapshot = u.N(4, "carrystake") == 0
 	p.PropFundingDL = int64(u.Range(2, 8, "fdl"))
 	p.PropVotingDL = int64(u.Range(2, 8, "vdl"))
 	p.PropPassPct = rapid.SampledFrom([]int{51, 67, 80}).Draw(t, "pass")
